@@ -7,17 +7,18 @@
 (*   reader(j):  Lookup -> [gate RPCAfterLookup] -> Cas ->                   *)
 (*               [gate RPCAfterCAS] -> Decode                                *)
 (*   NotifyAcks, Cancel, Tick (fake clock), ForceClose are atomic.           *)
+(*   Close (graceful): GC sets the flag, GCRet when every call returned.     *)
 (* Fix24 / Fix25 select the repaired behaviour (see DESIGN.md §8):           *)
 (*   Fix24: Do's deferred cleanup claims the handler flag or waits for an    *)
 (*          in-flight handler, so Output is never written after return.      *)
 (*   Fix25: the retry timer branch re-checks ctx/ack before re-sending.      *)
 EXTENDS Integers, Sequences, FiniteSets, TLC, Json
 
-CONSTANTS Reqs, Notifs, MaxRetries, MaxTicks, SendMayFail, SendMayBlock, Fix24, Fix25, SimDepth
+CONSTANTS Reqs, Notifs, MaxRetries, MaxTicks, SendMayFail, SendMayBlock, Fix24, Fix25, SimDepth, MayClose
 
 VARIABLES r,      \* per request record
           n,      \* per reader-notification record
-          g,      \* globals: closed, fcRet, ticks
+          g,      \* globals: closed (reqCtx cancelled), flag (Engine.closed), gc (graceful Close), fcRet, ticks
           w,      \* witnesses for action properties (history)
           hist    \* sequence of action labels (hidden by VIEW)
 
@@ -32,7 +33,7 @@ N0 == [pc |-> "idle", id |-> 0, kind |-> "none"]
 
 Init == /\ r = [i \in Reqs |-> R0]
         /\ n = [j \in Notifs |-> N0]
-        /\ g = [closed |-> FALSE, fcRet |-> FALSE, ticks |-> 0]
+        /\ g = [closed |-> FALSE, flag |-> FALSE, gc |-> "no", fcRet |-> FALSE, ticks |-> 0]
         /\ w = [lateWrite |-> FALSE, sendAfterAck |-> FALSE, foreignWrite |-> FALSE]
         /\ hist = <<>>
 
@@ -52,7 +53,7 @@ Finish(x, k) == IF Fix24 /\ x.called /\ ~x.done
 
 Start(i) ==
   /\ r[i].pc = "new"
-  /\ IF g.closed THEN SetR(i, [r[i] EXCEPT !.pc = "returned", !.ret = "closedRetryable"])
+  /\ IF g.flag THEN SetR(i, [r[i] EXCEPT !.pc = "returned", !.ret = "closedRetryable"])
      ELSE SetR(i, [r[i] EXCEPT !.pc = "registered", !.handler = "real"])
   /\ Lab([a |-> "Start", i |-> i]) /\ UNCHANGED <<n, g, w>>
 
@@ -164,8 +165,17 @@ Decode(j) ==
   /\ n' = [n EXCEPT ![j].pc = "finished"]
   /\ Lab([a |-> "Decode", j |-> j]) /\ UNCHANGED g
 
+\* graceful Close: sets the closed flag (new calls are refused) and waits for the pending calls;
+\* it cancels nothing. A later ForceClose must still cancel them.
+GC ==
+  /\ MayClose /\ ~g.flag /\ g.gc = "no" /\ g' = [g EXCEPT !.flag = TRUE, !.gc = "waiting"]
+  /\ Lab([a |-> "GC"]) /\ UNCHANGED <<r, n, w>>
+GCRet ==
+  /\ g.gc = "waiting" /\ \A i \in Reqs : r[i].pc \in {"new", "returned"}
+  /\ g' = [g EXCEPT !.gc = "ret"]
+  /\ Lab([a |-> "GCRet"]) /\ UNCHANGED <<r, n, w>>
 FC ==
-  /\ ~g.closed /\ g' = [g EXCEPT !.closed = TRUE]
+  /\ ~g.closed /\ g' = [g EXCEPT !.closed = TRUE, !.flag = TRUE]
   /\ Lab([a |-> "FC"]) /\ UNCHANGED <<r, n, w>>
 FCRet ==
   /\ g.closed /\ ~g.fcRet /\ \A i \in Reqs : r[i].pc \in {"new", "returned"}
@@ -179,7 +189,7 @@ Next ==
                      \/ SendDone(i) \/ SendAbort(i)
                      \/ \E ok \in B : FirstSend(i, ok) \/ RetryTimer(i, ok)
   \/ \E j \in Notifs : Cas(j) \/ Decode(j) \/ \E i \in Reqs : Lookup(j, i, "ok") \/ Lookup(j, i, "err")
-  \/ Tick \/ FC \/ FCRet
+  \/ Tick \/ FC \/ FCRet \/ GC \/ GCRet
 
 Spec == Init /\ [][Next]_vars
 FairSpec == Spec /\ WF_vars(Next)
